@@ -35,6 +35,8 @@ func checkC01(w *World, r *Report) {
 	c01WsWrite(w, r)
 	c01WriteCounts(w, r)
 	c01WsReadLimit(w, r)
+	r.Rule("R01.12", "no codec of the DNS carrier cuts a payload short: ascii85.Decode has worst-case room or its consumed count is checked (a zero-heavy fragment decodes to more bytes than its text is long)", 1)
+	ruleAscii85Room(w, r, "R01.12")
 	r.Rule("R01.11", "a logical connection is piped to the channel whose exact name was negotiated (the stream's bytes reach the target the client asked for)", 1)
 	c03OpenGuard(w, r, "R01.11")
 	r.Rule("R01.10", "a deadline armed on a connection is disarmed in both directions before the connection lives on as a session", 1)
@@ -642,10 +644,12 @@ func c01WsWrite(w *World, r *Report) {
 // (R01.5). gorilla's SetReadLimit makes the receiving end fail the connection on any larger message — and
 // the tunnel's Read turns that failure into a clean io.EOF. A limit below the writer's chunk size therefore
 // truncates bulk transfers silently.
-func c01WsReadLimit(w *World, r *Report) {
+func c01WsReadLimit(w *World, r *Report) { ruleWsReadLimit(w, r, "R01.9") }
+
+func ruleWsReadLimit(w *World, r *Report, rule string) {
 	chunk, ok := intConstOf(w, "internal/util/buffers", "BufferSize")
 	if !ok {
-		r.Undecided("R01.9", "call:websocket.SetReadLimit", "-", "anchor unresolved: buffers.BufferSize")
+		r.Undecided(rule, "call:websocket.SetReadLimit", "-", "anchor unresolved: buffers.BufferSize")
 		return
 	}
 	n := 0
@@ -667,5 +671,5 @@ func c01WsReadLimit(w *World, r *Report) {
 		}
 	}
 	sort.Strings(bad)
-	r.Check(len(bad) == 0, "R01.9", "call:websocket.SetReadLimit", "-", fmt.Sprintf("%d read limit(s) set; none below the writer's message size of %d", n, chunk), strings.Join(bad, "; "))
+	r.Check(len(bad) == 0, rule, "call:websocket.SetReadLimit", "-", fmt.Sprintf("%d read limit(s) set; none below the writer's message size of %d", n, chunk), strings.Join(bad, "; "))
 }
